@@ -98,7 +98,7 @@ func (s *scen) onHandler(c fox.Context) {
 		impl = "BIgnoreTsr"
 	}
 	b.op(fmt.Sprintf("OServe %s %s %s %s %s", nat(a), nat(b.hdrAddr[fox.VerifHeaderID(p.hw.Header())]), nat(b.reqAddr[fox.VerifRequestID(p.r)]), s.lkCoq(p, d, p.plantedTsr), flags),
-		fmt.Sprintf("ServeHTTP(%s %s) [%s] on c%d: implementation took %s", p.method, p.path, kind, a, impl))
+		fmt.Sprintf("ServeHTTP(%s Host=%s %s) [%s] on c%d: implementation took %s", p.method, p.r.Host, p.path, kind, a, impl))
 	b.outs = append(b.outs, "OutBranch "+impl)
 	b.next += 2
 	b.kinds["serve:"+impl]++
@@ -245,12 +245,10 @@ func (s *scen) doCloneWith(l *live, depth int) {
 // doLookup: manual Router.Lookup, from inside a handler (l != nil) or between requests
 func (s *scen) doLookup(l *live, depth int) {
 	b := s.b
-	kind := hx.Pick(b.rnd, []string{"direct", "direct", "tsr", "noroute"})
+	kind := hx.Pick(b.rnd, []string{"direct", "direct", "tsr", "noroute", "hostfail"})
 	p := s.plan(kind)
-	if p.rt == nil {
-		kind = "noroute"
-	}
-	r := b.newReq(p.method, p.path, "q="+p.tok+"&z=zz"+p.tok, p.tok)
+	kind = normKind(kind, p)
+	r := b.newReq(p.method, p.path, "q="+p.tok+"&z=zz"+p.tok, p.tok, p.host)
 	b.oldReqs = append(b.oldReqs, r)
 	var w fox.ResponseWriter
 	wk := "None"
@@ -273,14 +271,26 @@ func (s *scen) doLookup(l *live, depth int) {
 	var cc fox.ContextCloser
 	var tsr bool
 	via := "Router.Lookup"
-	if b.rnd.Pct(30) {
-		// same code shape in txn.go: a read transaction on the current tree (same pool)
-		via = "Txn.Lookup"
-		txn := s.f.Txn(false)
-		rt, cc, tsr = txn.Lookup(w, r)
-		txn.Abort()
-	} else {
-		rt, cc, tsr = s.f.Lookup(w, r)
+	func() {
+		defer func() {
+			if rec := recover(); rec != nil {
+				b.op(fmt.Sprintf("OLookup %s %s %s (mkLk None false [] None [])", nat(b.ctxAddrOf(planted)), nat(0), nat(b.reqAddr[fox.VerifRequestID(r)])),
+					fmt.Sprintf("Lookup(%s Host=%s %s) [%s] on the context with the planted leftovers", p.method, r.Host, p.path, kind))
+				b.recovered("Lookup (leftovers of an earlier user of the pooled context were consumed)", rec)
+			}
+		}()
+		if b.rnd.Pct(30) {
+			// same code shape in txn.go: a read transaction on the current tree (same pool)
+			via = "Txn.Lookup"
+			txn := s.f.Txn(false)
+			defer txn.Abort()
+			rt, cc, tsr = txn.Lookup(w, r)
+		} else {
+			rt, cc, tsr = s.f.Lookup(w, r)
+		}
+	}()
+	if b.panicked {
+		return
 	}
 	b.kinds[via]++
 	rd, _ := fox.VerifRecDump(w)
@@ -323,15 +333,28 @@ func (s *scen) doLookup(l *live, depth int) {
 
 func (b *B) ctxAddrOf(id uintptr) int { return b.ctxAddr[id] }
 
+// normKind: the shape a planned request has once the oracle has spoken
+func normKind(kind string, p *pending) string {
+	if kind == "direct" || kind == "tsr" || kind == "hostfail" {
+		switch {
+		case p.rt == nil:
+			return "noroute"
+		case p.tsr:
+			return "tsr"
+		default:
+			return "direct"
+		}
+	}
+	return kind
+}
+
 // request sends one request of the given kind through ServeHTTP
 func (s *scen) request(kind string) {
 	b := s.b
 	p := s.plan(kind)
-	if p.rt == nil && (kind == "direct" || kind == "tsr") {
-		kind = "noroute"
-	}
+	kind = normKind(kind, p)
 	p.kindName = kind
-	p.r = b.newReq(p.method, p.path, "q="+p.tok+"&z=zz"+p.tok, p.tok)
+	p.r = b.newReq(p.method, p.path, "q="+p.tok+"&z=zz"+p.tok, p.tok, p.host)
 	p.hw = b.newHW(p.tok)
 	p.planted = b.prePlant(s.f)
 	p.plantedTsr = b.lastPlantedTsr
